@@ -1511,3 +1511,88 @@ class LifecycleMon(Monitor):
                                                            f'{[a.name for a in got]}, registered assets matching all filters: '
                                                            f'{[a.name for a in want]}')
         w.facts.append('lookup_checked')
+
+
+# ============================================================================ C04
+
+def serial_reference(spec, horizon, max_parts=64):
+    '''Blocking-after-service max-plus recurrence for Source -> stations -> Sink (DESIGN.md section 5, C04).
+    Returns {station name: [arrival times <= horizon]} for stations 1..n+1.'''
+    devs = [d for d in spec['devices'] if d['kind'] in ('source', 'handler', 'processor', 'buffer', 'sink')]
+    n = len(devs)
+    c = []
+    K = []
+    for d in devs:
+        if d['kind'] == 'buffer':
+            c.append(d.get('delay', 0))
+            K.append(INF if d.get('capacity') is None else d['capacity'])
+        else:
+            c.append(d.get('cycle', 0))
+            K.append(1)
+    budget = devs[0].get('budget')
+    budget = INF if budget is None else budget
+    D = [[None] * (max_parts + 1) for _ in range(n)]       # D[j][k], k from 1
+    A = [[None] * (max_parts + 1) for _ in range(n)]
+    for k in range(1, max_parts + 1):
+        for j in range(n):
+            if j == 0:
+                a = 0 if k == 1 else D[0][k - 1]
+            else:
+                a = D[j - 1][k]
+            A[j][k] = a
+            if j == n - 1:                # sink: the slot is free c after reception
+                D[j][k] = a + c[j]
+                continue
+            d = a + c[j]
+            if k > 1:
+                d = max(d, D[j][k - 1])
+            Kn = K[j + 1]
+            if Kn != INF and k - Kn >= 1:
+                d = max(d, D[j + 1][int(k - Kn)])
+            if j == 0 and k > budget:
+                d = INF
+            D[j][k] = d
+        if A[1][k] is not None and A[1][k] > horizon:
+            break
+    out = {}
+    for j in range(1, n):
+        out[devs[j]['name']] = [A[j][k] for k in range(1, max_parts + 1)
+                                if A[j][k] is not None and A[j][k] <= horizon]
+    return out
+
+
+@monitor('recurrence')
+class RecurrenceMon(Monitor):
+    '''C04: in every explored schedule the arrival times at every station equal the reference recurrence exactly.'''
+    prop = 'C04'
+
+    def final(self, w):
+        ref = serial_reference(w.spec, w.horizon, w.spec.get('max_parts', 64))
+        sd = w.env.simulation_data.get('received_part', {})
+        for name, want in ref.items():
+            got = [r[0] for r in sd.get(name, [])]
+            if got != want:
+                i = next((k for k, (a, b) in enumerate(zip(got, want)) if a != b), min(len(got), len(want)))
+                raise Violation('timing', f'{name}: part {i + 1} arrived at {got[i] if i < len(got) else "never"}, reference '
+                                          f'recurrence says {want[i] if i < len(want) else "never (within the horizon)"}; '
+                                          f'arrivals {got} vs {want}')
+        sinkname = [d['name'] for d in w.spec['devices'] if d['kind'] == 'sink'][0]
+        k = w.dev[sinkname]
+        if k.received_parts_count != len(ref[sinkname]):
+            raise Violation('sink_count', f'{sinkname} received {k.received_parts_count} parts, reference {len(ref[sinkname])}')
+        if ref[sinkname]:
+            w.facts.append('parts_through')
+        w.facts.append('timing_compared')
+
+
+@monitor('examplecount')
+class ExampleCount(Monitor):
+    '''C04: the part count the project documents for a serial example.'''
+    prop = 'C04'
+
+    def final(self, w):
+        want = w.spec.get('documented_count')
+        k = [d for d in w.dev.values() if isinstance(d, Sink)][0]
+        if want is not None and k.received_parts_count != want:
+            raise Violation('documented_count', f'{w.spec["name"]}: sink received {k.received_parts_count} parts, the example documents {want}')
+        w.facts.append('documented_count_checked')
